@@ -4,6 +4,7 @@ The engines run the same definitions the theorems in `KyroModel/Theorems` are ab
 -/
 import Driver.Tiered
 import Driver.QCacheEng
+import Driver.StoreEng
 
 open Driver
 
@@ -25,4 +26,5 @@ def main (args : List String) : IO UInt32 := do
   match args with
   | ["tiered"] => loop stdin stdout Tiered.step none; return 0
   | ["qcache"] => loop stdin stdout QCacheEng.step none; return 0
+  | ["store"] => loop stdin stdout StoreEng.step none; return 0
   | _ => IO.eprintln "usage: kyro_driver <engine>"; return 2
